@@ -1,9 +1,771 @@
+// C16, migration part — "Migrating a v1 or v1beta1 workspace to v2 preserves, for every module, the
+// set of files built, their descriptors, and the lint and breaking results."
+//
+// Oracle (metamorphic, before vs after): a generated v1/v1beta1 workspace W and a fixed mutated copy M
+// (same configuration files, sources with extra/changed elements) are written to disk. Through the same
+// controller entry point the CLI uses for `buf build|lint|breaking <input>`
+// (bufctl.Controller.GetTargetImageWithConfigsAndCheckClient + Client.Lint / Client.Breaking, images
+// paired by index like `buf breaking` does) the per-module images, lint annotations and breaking
+// annotations against M are observed for the workspace directory and for every module directory.
+// Then W is migrated in place with bufmigrate.MigrateAll on an OS bucket rooted at W (what
+// `buf config migrate` does in its working directory) and the same observations are taken again.
+// M is never migrated. Because migration is in place, every path is identical on both sides; no
+// normalisation is needed. Modules are addressed by directory (non-import files of an image lie in
+// exactly one generated module directory); the N root-modules a v1beta1 module with N roots is split
+// into are compared as a union.
 package c16
 
 import (
+	"bytes"
+	"context"
 	"encoding/json"
+	"errors"
+	"fmt"
+	"io"
+	"log/slog"
+	"os"
+	"path/filepath"
+	"sort"
+	"strings"
 	"testing"
+
+	"github.com/bufbuild/buf/private/buf/bufcli"
+	"github.com/bufbuild/buf/private/buf/bufctl"
+	"github.com/bufbuild/buf/private/buf/bufmigrate"
+	"github.com/bufbuild/buf/private/bufpkg/bufanalysis"
+	"github.com/bufbuild/buf/private/bufpkg/bufcheck"
+	"github.com/bufbuild/buf/private/bufpkg/bufconfig"
+	"github.com/bufbuild/buf/private/bufpkg/bufimage"
+	"github.com/bufbuild/buf/private/pkg/app"
+	"github.com/bufbuild/buf/private/pkg/app/appext"
+	"github.com/bufbuild/buf/private/pkg/storage/storageos"
+	"github.com/bufbuild/buf/private/pkg/wasm"
+	"github.com/bufbuild/bufverif/internal/evid"
+	"google.golang.org/protobuf/proto"
+	"google.golang.org/protobuf/types/descriptorpb"
+	"pgregory.net/rapid"
 )
 
-// replayMigration is replaced by the migration part of the check.
-func replayMigration(t *testing.T, raw json.RawMessage) { t.Skip("migration part not built yet") }
+// migUnknownID is the error text of bufcheck for an id that does not exist in the configuration's version.
+const migUnknownID = "is not a known rule or category ID"
+
+// migUnknownIDClass classifies an "unknown id" failure after/during migration by the id it names:
+// "deprecated-id" (deprecated in v1/v1beta1, gone in v2), "v1beta1-only-id" (exists only in the v1beta1
+// tables) or "unknown-id"; "" if the text is not such a failure.
+func migUnknownIDClass(text string) string {
+	i := strings.Index(text, migUnknownID)
+	if i < 0 {
+		return ""
+	}
+	head := strings.TrimSpace(text[:i])
+	if !strings.HasSuffix(head, `"`) {
+		return "unknown-id"
+	}
+	head = head[:len(head)-1]
+	j := strings.LastIndex(head, `"`)
+	if j < 0 {
+		return "unknown-id"
+	}
+	id := head[j+1:]
+	for _, kind := range []string{"lint", "breaking"} {
+		if migTables["v1"][kind].isDepr[id] || migTables["v1beta1"][kind].isDepr[id] {
+			return "deprecated-id"
+		}
+	}
+	for _, kind := range []string{"lint", "breaking"} {
+		if migTables["v1beta1"][kind].has(id) && !migTables["v1"][kind].has(id) {
+			return "v1beta1-only-id"
+		}
+	}
+	return "unknown-id"
+}
+
+var migLogger = slog.New(slog.NewTextHandler(io.Discard, &slog.HandlerOptions{Level: slog.LevelError + 10}))
+
+// ---------------------------------------------------------------------------------------------
+// case (replayable)
+
+type migCaseMod struct {
+	Dir       string `json:"dir"`
+	Version   string `json:"version"`
+	MultiRoot bool   `json:"multi_root,omitempty"`
+	NoBufYAML bool   `json:"no_buf_yaml,omitempty"`
+}
+
+type migCase struct {
+	Kind    string            `json:"kind"`   // "migration"
+	Layout  string            `json:"layout"` // work | root | subdir
+	Modules []migCaseMod      `json:"modules"`
+	Inputs  []string          `json:"inputs"` // directories given to build/lint/breaking (workspace-relative)
+	Files   map[string]string `json:"files"`   // workspace tree before migration
+	Against map[string]string `json:"against"` // fixed mutated copy (never migrated)
+}
+
+func migCaseOf(ws *migWS) *migCase {
+	c := &migCase{Kind: "migration", Layout: ws.Layout, Files: ws.migRender(false), Against: ws.migRender(true)}
+	for _, m := range ws.Modules {
+		c.Modules = append(c.Modules, migCaseMod{Dir: m.Dir, Version: m.Version, MultiRoot: len(m.Roots) > 1, NoBufYAML: m.NoBufYAML})
+	}
+	switch ws.Layout {
+	case "work":
+		// `buf lint <workspace>` and `buf lint <workspace>/<module dir>`
+		c.Inputs = []string{".", ws.Modules[ws.InputMod].Dir}
+	case "root":
+		c.Inputs = []string{"."}
+	default:
+		// no buf.work.yaml: before migration only the module directory itself is a meaningful input
+		c.Inputs = []string{ws.Modules[0].Dir}
+	}
+	return c
+}
+
+// multiRootIn says whether the input targets a module that migration splits into several modules.
+func (c *migCase) multiRootIn(input string) bool {
+	for _, m := range c.Modules {
+		if m.MultiRoot && (input == "." || input == m.Dir) {
+			return true
+		}
+	}
+	return false
+}
+
+// checksDisabled reports whether the un-migrated buf.yaml of the module switches lint / breaking off
+// (an ignore path naming the module itself).
+func (c *migCase) checksDisabled(mod string) (lint, breaking bool) {
+	text, ok := c.Files[migJoin(mod, "buf.yaml")]
+	if !ok {
+		return false, false
+	}
+	f, err := bufconfig.ReadBufYAMLFile(strings.NewReader(text), "buf.yaml")
+	if err != nil || len(f.ModuleConfigs()) != 1 {
+		return false, false
+	}
+	mc := f.ModuleConfigs()[0]
+	return mc.LintConfig().Disabled(), mc.BreakingConfig().Disabled()
+}
+
+func (c *migCase) moduleOf(rel string) string {
+	best := "?"
+	for _, m := range c.Modules {
+		if m.Dir == "." || rel == m.Dir || strings.HasPrefix(rel, m.Dir+"/") {
+			if best == "?" || len(m.Dir) > len(best) {
+				best = m.Dir
+			}
+		}
+	}
+	return best
+}
+
+// ---------------------------------------------------------------------------------------------
+// environment: one controller per process
+
+type migEnv struct {
+	ctl    bufctl.Controller
+	cont   appext.Container
+	stderr *bytes.Buffer
+}
+
+func migNewEnv(home string) (*migEnv, error) {
+	if err := migLoadTables(); err != nil {
+		return nil, err
+	}
+	stderr := &bytes.Buffer{}
+	envMap := map[string]string{"HOME": home, "BUF_CACHE_DIR": filepath.Join(home, "cache"), "PATH": "/nonexistent"}
+	base := app.NewContainer(envMap, strings.NewReader(""), io.Discard, stderr, "buf")
+	nc, err := appext.NewNameContainer(base, "buf")
+	if err != nil {
+		return nil, err
+	}
+	cont := appext.NewContainer(nc, migLogger)
+	ctl, err := bufcli.NewController(cont, bufctl.WithFileAnnotationErrorFormat("text"))
+	if err != nil {
+		return nil, err
+	}
+	return &migEnv{ctl: ctl, cont: cont, stderr: stderr}, nil
+}
+
+// ---------------------------------------------------------------------------------------------
+// observation
+
+type migAnn struct {
+	Type string `json:"type"`
+	Path string `json:"path"`
+	Ext  string `json:"ext"`
+	SL   int    `json:"sl"`
+	SC   int    `json:"sc"`
+	EL   int    `json:"el"`
+	EC   int    `json:"ec"`
+	Msg  string `json:"msg"`
+}
+
+func (a migAnn) String() string {
+	return fmt.Sprintf("%s:%d:%d-%d:%d:%s:%s [%s]", a.Path, a.SL, a.SC, a.EL, a.EC, a.Type, a.Msg, a.Ext)
+}
+
+func migFlatten(root string, err error) ([]migAnn, error) {
+	if err == nil {
+		return nil, nil
+	}
+	var fas bufanalysis.FileAnnotationSet
+	if !errors.As(err, &fas) {
+		return nil, err
+	}
+	var out []migAnn
+	for _, fa := range fas.FileAnnotations() {
+		a := migAnn{Type: fa.Type(), SL: fa.StartLine(), SC: fa.StartColumn(), EL: fa.EndLine(), EC: fa.EndColumn(), Msg: fa.Message()}
+		if fi := fa.FileInfo(); fi != nil {
+			a.Path = fi.Path()
+			a.Ext = strings.TrimPrefix(fi.ExternalPath(), root+"/")
+		}
+		out = append(out, a)
+	}
+	return out, nil
+}
+
+func migAnnSet(as []migAnn) []string {
+	set := map[string]bool{}
+	for _, a := range as {
+		set[a.String()] = true
+	}
+	out := make([]string, 0, len(set))
+	for s := range set {
+		out = append(out, s)
+	}
+	sort.Strings(out)
+	return out
+}
+
+type migObs struct {
+	Err    string // images could not be produced
+	images []bufctl.ImageWithConfig
+	client bufcheck.Client
+	modOf  []string                                                 // image index -> module dir
+	files  map[string]map[string]bool                               // module dir -> path -> is import in every image of that module
+	descs  map[string]map[string][]*descriptorpb.FileDescriptorProto // module dir -> path -> descriptors seen
+	lint   map[string][]string                                      // module dir -> annotation set
+	lintErr string
+}
+
+// migImages returns the images of an input the way `buf lint|breaking <input>` obtains them.
+func (e *migEnv) migImages(ctx context.Context, input string) ([]bufctl.ImageWithConfig, bufcheck.Client, string) {
+	e.stderr.Reset()
+	iwcs, client, err := e.ctl.GetTargetImageWithConfigsAndCheckClient(ctx, input, wasm.UnimplementedRuntime)
+	if err != nil {
+		return nil, nil, fmt.Sprintf("%v %s", err, strings.TrimSpace(e.stderr.String()))
+	}
+	return iwcs, client, ""
+}
+
+func migCheckOptions(iwcs []bufctl.ImageWithConfig) []bufconfig.CheckConfig {
+	all := make([]bufconfig.CheckConfig, 0, len(iwcs)*2)
+	for _, iwc := range iwcs {
+		all = append(all, iwc.LintConfig(), iwc.BreakingConfig())
+	}
+	return all
+}
+
+func (e *migEnv) observe(ctx context.Context, c *migCase, root, input string) *migObs {
+	o := &migObs{files: map[string]map[string]bool{}, descs: map[string]map[string][]*descriptorpb.FileDescriptorProto{}, lint: map[string][]string{}}
+	abs := root
+	if input != "." {
+		abs = filepath.Join(root, filepath.FromSlash(input))
+	}
+	o.images, o.client, o.Err = e.migImages(ctx, abs)
+	if o.Err != "" {
+		return o
+	}
+	all := migCheckOptions(o.images)
+	lintAnns := map[string][]migAnn{}
+	for _, iwc := range o.images {
+		mod := "?"
+		for _, f := range iwc.Files() {
+			if !f.IsImport() {
+				mod = c.moduleOf(strings.TrimPrefix(f.ExternalPath(), root+"/"))
+				break
+			}
+		}
+		o.modOf = append(o.modOf, mod)
+		if o.files[mod] == nil {
+			o.files[mod] = map[string]bool{}
+			o.descs[mod] = map[string][]*descriptorpb.FileDescriptorProto{}
+		}
+		for _, f := range iwc.Files() {
+			imp, seen := o.files[mod][f.Path()]
+			if !seen {
+				imp = true
+			}
+			o.files[mod][f.Path()] = imp && f.IsImport()
+			o.descs[mod][f.Path()] = append(o.descs[mod][f.Path()], f.FileDescriptorProto())
+		}
+		err := o.client.Lint(ctx, iwc.LintConfig(), iwc, bufcheck.WithPluginConfigs(iwc.PluginConfigs()...), bufcheck.WithRelatedCheckConfigs(all...))
+		anns, err := migFlatten(root, err)
+		if err != nil {
+			o.lintErr = fmt.Sprintf("module %s: %v", mod, err)
+			continue
+		}
+		lintAnns[mod] = append(lintAnns[mod], anns...)
+		if _, ok := lintAnns[mod]; !ok {
+			lintAnns[mod] = nil
+		}
+	}
+	for mod := range o.files {
+		o.lint[mod] = migAnnSet(lintAnns[mod])
+	}
+	return o
+}
+
+// breaking runs what `buf breaking <input> --against <against>` runs: image i against image i.
+// mismatch is returned when the CLI would refuse because of the image count.
+func (o *migObs) breaking(ctx context.Context, root string, against []bufctl.ImageWithConfig) (set []string, mismatch bool, errText string) {
+	if len(o.images) != len(against) {
+		return nil, true, fmt.Sprintf("input contained %d images, whereas against contained %d images", len(o.images), len(against))
+	}
+	all := migCheckOptions(o.images)
+	var anns []migAnn
+	for i, iwc := range o.images {
+		err := o.client.Breaking(ctx, iwc.BreakingConfig(), iwc, bufimage.Image(against[i]), bufcheck.WithPluginConfigs(iwc.PluginConfigs()...), bufcheck.WithRelatedCheckConfigs(all...))
+		as, err := migFlatten(root, err)
+		if err != nil {
+			return nil, false, fmt.Sprintf("image %d (%s): %v", i, o.modOf[i], err)
+		}
+		anns = append(anns, as...)
+	}
+	return migAnnSet(anns), false, ""
+}
+
+// ---------------------------------------------------------------------------------------------
+// oracle
+
+func migWriteTree(dir string, files map[string]string) error {
+	paths := make([]string, 0, len(files))
+	for p := range files {
+		paths = append(paths, p)
+	}
+	sort.Strings(paths)
+	for _, p := range paths {
+		full := filepath.Join(dir, filepath.FromSlash(p))
+		if err := os.MkdirAll(filepath.Dir(full), 0o755); err != nil {
+			return err
+		}
+		if err := os.WriteFile(full, []byte(files[p]), 0o644); err != nil {
+			return err
+		}
+	}
+	return nil
+}
+
+func migDiffSets(a, b []string) (onlyA, onlyB []string) {
+	am := map[string]bool{}
+	for _, s := range a {
+		am[s] = true
+	}
+	bm := map[string]bool{}
+	for _, s := range b {
+		bm[s] = true
+		if !am[s] {
+			onlyB = append(onlyB, s)
+		}
+	}
+	for _, s := range a {
+		if !bm[s] {
+			onlyA = append(onlyA, s)
+		}
+	}
+	return
+}
+
+func migFileSet(m map[string]bool) []string {
+	var out []string
+	for p, imp := range m {
+		if imp {
+			out = append(out, p+" (import)")
+		} else {
+			out = append(out, p)
+		}
+	}
+	sort.Strings(out)
+	return out
+}
+
+func migKeys[V any](m map[string]V) []string {
+	out := make([]string, 0, len(m))
+	for k := range m {
+		out = append(out, k)
+	}
+	sort.Strings(out)
+	return out
+}
+
+type migStats struct {
+	lintAnns, breakingAnns int
+	breakingCompared       int
+	breakingSkipped        int
+	migratedYAML           string
+}
+
+// migOracle writes the case to a fresh directory and compares before/after. It returns a classifier
+// key and message when the property is falsified ("" otherwise); harness problems are tb.Fatalf.
+func migOracle(tb evid.TB, env *migEnv, c *migCase, st *migStats) (string, string) {
+	ctx := context.Background()
+	base, err := os.MkdirTemp("", "c16mig")
+	if err != nil {
+		tb.Fatalf("harness: temp dir: %v", err)
+	}
+	defer os.RemoveAll(base)
+	if resolved, err := filepath.EvalSymlinks(base); err == nil {
+		base = resolved
+	}
+	W, M := filepath.Join(base, "ws"), filepath.Join(base, "against")
+	if err := migWriteTree(W, c.Files); err != nil {
+		tb.Fatalf("harness: write: %v", err)
+	}
+	if err := migWriteTree(M, c.Against); err != nil {
+		tb.Fatalf("harness: write: %v", err)
+	}
+	inputs := c.Inputs
+	before := map[string]*migObs{}
+	beforeBreaking := map[string][]string{}
+	against := map[string][]bufctl.ImageWithConfig{}
+	for _, in := range inputs {
+		o := env.observe(ctx, c, W, in)
+		if o.Err != "" {
+			tb.Fatalf("harness: generated workspace does not build before migration (input %q): %s", in, o.Err)
+		}
+		if o.lintErr != "" {
+			tb.Fatalf("harness: lint fails before migration (input %q): %s", in, o.lintErr)
+		}
+		for _, mod := range o.modOf {
+			if mod == "?" {
+				tb.Fatalf("harness: image of input %q has no file inside a generated module directory", in)
+			}
+		}
+		before[in] = o
+		absM := M
+		if in != "." {
+			absM = filepath.Join(M, filepath.FromSlash(in))
+		}
+		ag, _, errText := env.migImages(ctx, absM)
+		if errText != "" {
+			tb.Fatalf("harness: mutated copy does not build (input %q): %s", in, errText)
+		}
+		against[in] = ag
+		set, mismatch, errText := o.breaking(ctx, W, ag)
+		if mismatch || errText != "" {
+			tb.Fatalf("harness: breaking fails before migration (input %q): %s", in, errText)
+		}
+		beforeBreaking[in] = set
+		for _, l := range o.lint {
+			st.lintAnns += len(l)
+		}
+		st.breakingAnns += len(set)
+	}
+
+	// migrate in place, the way `buf config migrate` (no flags) does in its working directory
+	moduleKeyProvider, err := bufcli.NewModuleKeyProvider(env.cont)
+	if err != nil {
+		tb.Fatalf("harness: %v", err)
+	}
+	commitProvider, err := bufcli.NewCommitProvider(env.cont)
+	if err != nil {
+		tb.Fatalf("harness: %v", err)
+	}
+	bucket, err := storageos.NewProvider(storageos.ProviderWithSymlinks()).NewReadWriteBucket(W, storageos.ReadWriteBucketWithSymlinksIfSupported())
+	if err != nil {
+		tb.Fatalf("harness: %v", err)
+	}
+	migrator := bufmigrate.NewMigrator(migLogger, moduleKeyProvider, commitProvider)
+	if err := bufmigrate.MigrateAll(ctx, migrator, bucket, []string{".git", ".github"}); err != nil {
+		key := "migrate-failed"
+		if cls := migUnknownIDClass(err.Error()); cls != "" {
+			key = "migrate-failed:" + cls
+		}
+		return key, fmt.Sprintf("bufmigrate.MigrateAll on a workspace that builds, lints and breaking-checks before migration: %v", err)
+	}
+	data, err := os.ReadFile(filepath.Join(W, "buf.yaml"))
+	if err != nil {
+		return "migration:no-v2-buf-yaml", fmt.Sprintf("no buf.yaml at the workspace root after migration: %v", err)
+	}
+	st.migratedYAML = string(data)
+	if f, err := bufconfig.ReadBufYAMLFile(bytes.NewReader(data), "buf.yaml"); err != nil || f.FileVersion() != bufconfig.FileVersionV2 {
+		return "migration:no-v2-buf-yaml", fmt.Sprintf("buf.yaml at the workspace root after migration is not a readable v2 file (err=%v):\n%s", err, data)
+	}
+	var left []string
+	if _, err := os.Stat(filepath.Join(W, "buf.work.yaml")); err == nil {
+		left = append(left, "buf.work.yaml")
+	}
+	for _, m := range c.Modules {
+		if m.Dir == "." {
+			continue
+		}
+		if _, err := os.Stat(filepath.Join(W, filepath.FromSlash(m.Dir), "buf.yaml")); err == nil {
+			left = append(left, m.Dir+"/buf.yaml")
+		}
+	}
+	if len(left) > 0 {
+		return "migration:old-config-left", fmt.Sprintf("after migration the v1 configuration files %v still exist", left)
+	}
+
+	for _, in := range inputs {
+		b := before[in]
+		a := env.observe(ctx, c, W, in)
+		ctxText := fmt.Sprintf("input %q; migrated buf.yaml:\n%s", in, st.migratedYAML)
+		if a.Err != "" {
+			return "migration:build-fails", fmt.Sprintf("builds before migration, fails after: %s\n%s", a.Err, ctxText)
+		}
+		// files
+		if !equalStrings(migKeys(b.files), migKeys(a.files)) {
+			return "migration:files-differ", fmt.Sprintf("modules with built files before %v, after %v\n%s", migKeys(b.files), migKeys(a.files), ctxText)
+		}
+		for _, mod := range migKeys(b.files) {
+			bf, af := migFileSet(b.files[mod]), migFileSet(a.files[mod])
+			if onlyB, onlyA := migDiffSets(bf, af); len(onlyB)+len(onlyA) > 0 {
+				return "migration:files-differ", fmt.Sprintf("module %q: files only before %v, only after %v\n%s", mod, onlyB, onlyA, ctxText)
+			}
+			for _, p := range migKeys(b.descs[mod]) {
+				ref := b.descs[mod][p][0]
+				for _, d := range a.descs[mod][p] {
+					if !proto.Equal(ref, d) {
+						return "migration:descriptor-differs", fmt.Sprintf("module %q file %q: FileDescriptorProto differs after migration\n%s", mod, p, ctxText)
+					}
+				}
+			}
+		}
+		// lint
+		if a.lintErr != "" {
+			key := "migration:lint-results-differ"
+			if cls := migUnknownIDClass(a.lintErr); cls != "" {
+				key = "migration:emitted-" + cls
+			}
+			return key, fmt.Sprintf("lint works before migration, fails after: %s\n%s", a.lintErr, ctxText)
+		}
+		for _, mod := range migKeys(b.lint) {
+			if onlyB, onlyA := migDiffSets(b.lint[mod], a.lint[mod]); len(onlyB)+len(onlyA) > 0 {
+				key := "migration:lint-results-differ"
+				if lintOff, _ := c.checksDisabled(mod); lintOff {
+					key = "migration:disabled-checks-reenabled"
+				}
+				return key, fmt.Sprintf("module %q: lint annotations only before (%d):\n  %s\nonly after (%d):\n  %s\n%s",
+					mod, len(onlyB), strings.Join(onlyB, "\n  "), len(onlyA), strings.Join(onlyA, "\n  "), ctxText)
+			}
+		}
+		// breaking against the fixed mutated copy
+		if c.multiRootIn(in) {
+			// migration splits a multi-root v1beta1 module into one module per root (documented); the
+			// un-migrated copy then has a different number of modules and `buf breaking` cannot pair them.
+			st.breakingSkipped++
+			continue
+		}
+		set, mismatch, errText := a.breaking(ctx, W, against[in])
+		if mismatch || errText != "" {
+			key := "migration:breaking-results-differ"
+			if cls := migUnknownIDClass(errText); cls != "" {
+				key = "migration:emitted-" + cls
+			}
+			return key, fmt.Sprintf("breaking against the un-migrated copy works before migration, fails after: %s\n%s", errText, ctxText)
+		}
+		st.breakingCompared++
+		if onlyB, onlyA := migDiffSets(beforeBreaking[in], set); len(onlyB)+len(onlyA) > 0 {
+			key := "migration:breaking-results-differ"
+			for _, m := range c.Modules {
+				if _, brkOff := c.checksDisabled(m.Dir); brkOff && (in == "." || in == m.Dir) {
+					key = "migration:disabled-checks-reenabled"
+				}
+			}
+			return key, fmt.Sprintf("breaking annotations only before (%d):\n  %s\nonly after (%d):\n  %s\n%s",
+				len(onlyB), strings.Join(onlyB, "\n  "), len(onlyA), strings.Join(onlyA, "\n  "), ctxText)
+		}
+	}
+	return "", ""
+}
+
+func equalStrings(a, b []string) bool {
+	if len(a) != len(b) {
+		return false
+	}
+	for i := range a {
+		if a[i] != b[i] {
+			return false
+		}
+	}
+	return true
+}
+
+// ---------------------------------------------------------------------------------------------
+// test
+
+func migClasses(r *evid.Recorder, ws *migWS, st *migStats) {
+	r.Class("mig-layout-" + ws.Layout)
+	r.Class(fmt.Sprintf("mig-modules-%d", len(ws.Modules)))
+	versions := map[string]bool{}
+	for _, m := range ws.Modules {
+		versions[m.Version] = true
+		r.Class("mig-module-" + m.Version)
+		if m.NoBufYAML {
+			r.Class("mig-module-without-buf-yaml")
+		}
+		if m.Name != "" {
+			r.Class("mig-module-named")
+		}
+		if len(m.Roots) == 1 {
+			r.Class("mig-has-1-root")
+		}
+		if len(m.Roots) > 1 {
+			r.Class("mig-has-2-roots")
+		}
+		if len(m.Excludes) > 0 {
+			r.Class("mig-has-excludes")
+		}
+		for kind, cfg := range map[string]migCheckCfg{"lint": m.Lint, "breaking": m.Breaking} {
+			if !cfg.Present {
+				continue
+			}
+			r.Class("mig-has-" + kind + "-config")
+			if len(cfg.Use) > 0 {
+				r.Class("mig-" + kind + "-use")
+			}
+			if len(cfg.Except) > 0 {
+				r.Class("mig-" + kind + "-except")
+			}
+			if len(cfg.Ignore) > 0 {
+				r.Class("mig-" + kind + "-ignore")
+				if cfg.Ignore[0] == "." {
+					r.Class("mig-" + kind + "-ignore-module-itself")
+				}
+			}
+			if len(cfg.IgnoreOnly) > 0 {
+				r.Class("mig-" + kind + "-ignore-only")
+			}
+			tb := migTables[m.Version][kind]
+			tbV2Missing := false
+			depr := false
+			ids := append(append([]string{}, cfg.Use...), cfg.Except...)
+			for k := range cfg.IgnoreOnly {
+				ids = append(ids, k)
+			}
+			for _, id := range ids {
+				if tb.isDepr[id] || id == "DEFAULT" || id == "STYLE_DEFAULT" {
+					depr = true
+				}
+				switch id {
+				case "FILE_LAYOUT", "PACKAGE_AFFINITY", "SENSIBLE", "OTHER", "STYLE_BASIC", "STYLE_DEFAULT", "STYLE_STANDARD", "FIELD_NO_DESCRIPTOR":
+					tbV2Missing = true
+				}
+			}
+			if depr {
+				r.Class("mig-" + kind + "-deprecated-id")
+			}
+			if tbV2Missing {
+				r.Class("mig-lint-id-absent-in-v2")
+			}
+		}
+		if m.Lint.AllowCommentIgnores {
+			r.Class("mig-lint-allow-comment-ignores")
+		}
+		if m.Lint.EnumZeroValueSuffix != "" || m.Lint.ServiceSuffix != "" || m.Lint.RPCEmptyReq || m.Lint.RPCEmptyResp || m.Lint.RPCSameReqResp {
+			r.Class("mig-lint-options")
+		}
+		if m.Breaking.IgnoreUnstable {
+			r.Class("mig-breaking-ignore-unstable")
+		}
+	}
+	if len(versions) == 2 {
+		r.Class("mig-mixed-versions")
+	}
+	cross := false
+	modOfFile := map[int]int{}
+	for mi, m := range ws.Modules {
+		for _, f := range m.Files {
+			modOfFile[f.Idx] = mi
+		}
+	}
+	for _, f := range ws.files {
+		for _, i := range append(append([]int{}, f.Imports...), f.Unused...) {
+			if modOfFile[i] != modOfFile[f.Idx] && !f.Excluded {
+				cross = true
+			}
+		}
+	}
+	if cross {
+		r.Class("mig-cross-module-import")
+	}
+	if st.lintAnns > 0 {
+		r.Class("mig-lint-annotations>0")
+	}
+	if st.breakingAnns > 0 {
+		r.Class("mig-breaking-annotations>0")
+	}
+	if st.breakingCompared > 0 {
+		r.Class("mig-breaking-compared")
+	}
+	if st.breakingSkipped > 0 {
+		r.Class("mig-breaking-input-skipped-multi-root")
+	}
+}
+
+// TestMigration: migration of generated v1 / v1beta1 workspaces preserves files, descriptors, lint and
+// breaking results per module.
+func TestMigration(t *testing.T) {
+	r := evid.R()
+	home, err := os.MkdirTemp("", "c16mighome")
+	if err != nil {
+		t.Fatalf("harness: %v", err)
+	}
+	defer os.RemoveAll(home)
+	env, err := migNewEnv(home)
+	if err != nil {
+		t.Fatalf("harness: %v", err)
+	}
+	r.Check(t, r.Scale(60, 3000), 7, func(t *rapid.T) {
+		ws := migGenWS(t)
+		c := migCaseOf(ws)
+		st := &migStats{}
+		key, msg := migOracle(t, env, c, st)
+		r.Eval()
+		migClasses(r, ws, st)
+		nontrivial := false
+		if len(ws.Modules) >= 2 {
+			for _, m := range ws.Modules {
+				if len(m.Roots) > 0 || len(m.Excludes) > 0 {
+					nontrivial = true
+				}
+			}
+		}
+		if nontrivial {
+			canon, _ := json.Marshal(c.Files)
+			r.NonTrivial(string(canon))
+			r.Sample(map[string]any{"layout": c.Layout, "modules": c.Modules, "files": c.Files, "migrated_buf_yaml": st.migratedYAML})
+		}
+		if key != "" {
+			if r.Fail(t, key, msg, c) {
+				return
+			}
+		}
+	})
+}
+
+// replayMigration re-runs only the oracle on a saved migration case.
+func replayMigration(t *testing.T, raw json.RawMessage) {
+	var c migCase
+	if err := json.Unmarshal(raw, &c); err != nil {
+		t.Fatalf("harness: replay case: %v", err)
+	}
+	if len(c.Modules) == 0 || len(c.Files) == 0 || len(c.Inputs) == 0 {
+		t.Fatalf("harness: replay case has no modules/files/inputs")
+	}
+	home, err := os.MkdirTemp("", "c16mighome")
+	if err != nil {
+		t.Fatalf("harness: %v", err)
+	}
+	defer os.RemoveAll(home)
+	env, err := migNewEnv(home)
+	if err != nil {
+		t.Fatalf("harness: %v", err)
+	}
+	r := evid.R()
+	st := &migStats{}
+	key, msg := migOracle(t, env, &c, st)
+	r.Eval()
+	if key != "" {
+		r.Fail(t, key, msg, &c)
+	}
+}
